@@ -478,6 +478,10 @@ def run(ctx):
     # >>> a_dom (wave 4): the exact text of the three entry points vs the printer model, text-level oracles
     C16_text.run_text(ctx, parsed, out)
     # <<<
+    # >>> w_json (wave 5): the document walk (stream atoms) and the declarative window reading (stream aspec)
+    from props import C16_doc
+    C16_doc.run_doc(ctx, parsed)
+    # <<<
     # ---- the text itself: valid UTF-8, valid JSON for an independent parser
     tcases = []
     for m, (o, c) in out.items():
@@ -514,5 +518,19 @@ CLAIM = {
     "technique": "machine-checked proof in Coq over an executable model + model/implementation correspondence by extraction",
 }
 
+# >>> w_json (wave 5)
+CLAIM["wave5"] = ("Props/C16_array.v: the model of InnerSerArray's sliding window equals the declarative reading of the item list "
+                  "(markers vanish, `k op v` is one single-entry object, everything else itself; unique reading; only markers deleted), "
+                  "lifted to ArrayReader::json() and the remainder of mixed objects on every well-formed tape with the node's options "
+                  "(C16_json_array_content, C16_remainder_content). Props/C16_doc.v: the keys and leaves of the root's JSON in text order "
+                  "are the outputs of a single left-to-right walk over the tape (C16_doc_agree: Preserve and KeyValuePairs, every "
+                  "depth), which on doc_clean tapes consumes every token exactly once in order (C16_doc_positions); the two ways to be "
+                  "unclean are pinned (header among array items = known finding header-dup; container as key of a triple). "
+                  "Props/C16_f64.v: Scalar::to_f64 never returns NaN / infinity (exponent field < 1200), so every float leaf is finite "
+                  "(C16_to_f64_finite, C16_model_floats_finite). Streams atoms / aspec run the walk and the reading against json()")
+RULE = RULE + ("; wave 5 (props/C16_doc.py): documents with mixed containers in both directions holding triples, nested nodes and headers; "
+               "stream atoms = keys and leaves of the root's JSON in text order vs the tape walk JsonDoc.doc_eatoms (Preserve / KeyValuePairs "
+               "x 3 narrowings x both encodings); stream aspec = ArrayReader::json() of container nodes vs the declarative window reading")
+# <<<
 # a_dom (wave 4): the additional claim is part of the manifest text
-CLAIM["text"] = CLAIM["text"] + ". Wave 4: " + CLAIM.pop("wave4")
+CLAIM["text"] = CLAIM["text"] + ". Wave 4: " + CLAIM.pop("wave4") + ". Wave 5: " + CLAIM.pop("wave5")
